@@ -74,6 +74,14 @@ def opt_fields(schema):
                   "serde derive expansions of the nested webauthn/ctap2 types", "cbor_smol::de::*", "cosey RawPublicKey::deserialize",
                   "webauthn::deserialize_from_str_and_truncate / _skip_if_too_long", "FilteredPublicKeyCredentialParameters::deserialize",
                   "AttestationFormatsPreference::deserialize"],
+    "bounds": "Request::deserialize on the no-optional / all-optional template of each of the six command bytes (0x01, 0x02, 0x06, 0x0A, 0x41, "
+              "0x0C), every bytes/text member fully symbolic (text: any well-formed UTF-8), integers small constants; the parameter map with "
+              "each single optional parameter (thorough: adjacent pairs), integer arguments symbolic over a whole head class (quick: one "
+              "class chosen by seed, thorough: 1/2/4-byte); every nested type stand-alone with no / each single (thorough: all) optional "
+              "member incl. exact consumption; booleans enumerated (flipped by seed / both in thorough); default + all-features "
+              "configurations (thorough: all 8)",
+    "out": "arbitrary subsets of optional members beyond none/singletons/pairs/all; member contents longer than the defaults (capacities are "
+           "C12's subject); ill-formed UTF-8 (C13, C05); requests whose map is not in canonical order",
 })
 def plan_c01(tier, seed):
     from .gen_req import decode_harness, nested_harness
@@ -490,6 +498,18 @@ def plan_c05(tier, seed):
             add(status_harness("c05_%s_trunc_%d" % (tag, cut), "C05", cmd, base_var(),
                                (lambda cut=cut: (lambda t: C.encode(t)[:cut]))(), 0x12,
                                "%s: parameter map truncated after %d of %d bytes" % (variant, cut, len(enc))))
+    # every required member of every nested type, stand-alone (cheap, so ALL of them in both tiers): the same
+    # missing_field -> SerdeMissingField -> MissingParameter mapping the transport applies (util::cbor_status)
+    from .gen_fault import nested_accept
+    NESTED_REQ = [(spec.RP, [], ["id"]), (spec.USER, [], ["id"]), (spec.PARAMS, [], ["alg", "type"]), (spec.DESC_REF, [], ["id", "type"]),
+                  (spec.DESC, [], ["id", "type"]), (spec.HMAC_INPUT, [], [1, 2, 3]), (spec.HMAC_INPUT, [1], [1, -1, -2, -3])]
+    for schema, mp, keys in NESTED_REQ:
+        for k in keys:
+            var = Variation(default_present="all", intclass=0, seed=seed)
+            add(nested_accept("c05_n_%s_missing_%s_%s" % (schema.name, pname(mp), str(k).replace("-", "m")), "C05", schema, var,
+                              (lambda mp=mp, k=k: (lambda t: remove_entry(t, list(mp), k)))(),
+                              "stand-alone %s with required member %s of %s removed => MissingParameter" % (schema.name, k, pdesc(mp) if mp else "the map"),
+                              stub="branch", expect_status=0x14), configs="first")
     write_gen("C05", hs, prelude=C05_PRELUDE)
     metas.append(S("c05_command_bytes", "all 256 command bytes with an empty payload: unassigned/unsupported => 0x01, parameter-bearing => "
                    "0x12 (empty map data), parameter-less => accepted", configs="first", sym=1, timeout=1800))
@@ -558,7 +578,7 @@ def _type_fault_harness(name, cmd, var, p, ty, want, desc):
     from . import spec, cbor as C
     from .types import Ctx
     from .gen_req import fsa_for
-    h = Harness(name, "C05", desc, timeout=1500, stub_utf8="branch")
+    h = Harness(name, "C05", desc, timeout=1500, stub_utf8="assume")
     schema, variant = spec.REQUESTS[cmd]
     ctx = Ctx(h, var)
     m = schema.make(ctx, schema.name)
@@ -1208,7 +1228,9 @@ fn c04_skipper_deep_nesting() {
     "out": "arbitrary byte strings longer than 10 bytes that are not a template with symbolic contents; fully symbolic payloads longer than "
            "2-3 bytes through the whole decoder (measured intractable); stack exhaustion on 7609-byte nesting (a resource property CBMC "
            "does not model)",
-    "assumptions": ["core::str::from_utf8 replaced by the reference validator stub (both outcomes explored)"],
+    "assumptions": ["core::str::from_utf8 replaced by the reference validator stub: both outcomes explored in the leaf / window / growth "
+                    "instances; in the whole-template instances text contents are well-formed by assumption (several independently "
+                    "ill-formed texts in one message are intractable)"],
 })
 def plan_c04(tier, seed):
     from .gen_fault import status_harness, nested_accept
@@ -1417,7 +1439,8 @@ def plan_c03(tier, seed):
             sfx = "" if featset == {None} else "_feat"
             var = Variation(present={schema.name: opts}, default_present="all", intclass=0, maxlen=6, text="ascii", seed=seed)
             add(value_harness("c03_%s_all%s" % (tag, sfx), "C03", schema, var,
-                              "%s with all %d optional members%s present: canonical key order at every level" % (tag, len(opts), " (incl. feature-gated)" if sfx else "")),
+                              "%s with all %d optional members%s present: canonical key order at every level" % (tag, len(opts), " (incl. feature-gated)" if sfx else ""),
+                              symbool=len(opts) <= 8),   # 19 symbolic booleans exhaust memory; the order is the subject here
                 configs="all")
             pairs = list(itertools.combinations(opts, 2))
             if sfx:   # only pairs that involve a feature-gated member (the others exist already)
